@@ -10,7 +10,7 @@
 (*      (copy of the stream, verification of the trailer and indexing      *)
 (*       happen between the writes; completion of a thin pack and the new  *)
 (*       trailer are further WriteTmp steps)                               *)
-(*   [UnlinkTmp  -- the objects are already packed: Return ok]             *)
+(*   [UnlinkTmp TouchExisting -- the objects are already packed: Return ok] *)
 (*   RenamePack  CreateLock  WriteLock*  FlushLock  CloseLock  ReplaceIdx  *)
 (*   (validation of the installed pack reads only)                         *)
 (*   [UnlinkPack UnlinkIdx -- roll back when validation fails]             *)
@@ -126,8 +126,16 @@ UnlinkTmp(ok) ==
   /\ Fault(ok) /\ Lbl("unlink", "tmp", ok)
   /\ IF ok THEN tmp' = "none" /\ tmpc' = "empty" ELSE UNCHANGED <<tmp, tmpc>>
   /\ failing' = (failing \/ ~ok)
-  /\ pc' = "ret"
+  /\ pc' = (IF pc = "closed" /\ ok THEN "touch" ELSE "ret")
   /\ UNCHANGED <<kind, inp, pack, packc, lock, lockc, idx, idxc, validated, res, madded, nw>>
+
+(* the objects are already packed: the pack that is kept is freshened (os.utime, OSError suppressed) so that it is
+   as recent as the copy that was dropped; only a non-OSError (an interrupt) makes the call fail here *)
+TouchExisting(ok) ==
+  /\ pc = "touch" /\ Fault(ok) /\ Lbl("utime", "pack", ok)
+  /\ pc' = "ret"
+  /\ failing' \in (IF ok THEN {failing} ELSE {failing, TRUE})
+  /\ UNCHANGED <<kind, inp, fs, validated, res, madded, nw>>
 
 RenamePack(ok) ==
   /\ pc = "closed" /\ ~inp.dup /\ Fault(ok) /\ Lbl("rename", "pack", ok)
@@ -219,7 +227,7 @@ MInflate ==
 
 Next ==
   \/ \E ok \in BOOLEAN : \/ CreateTmp(ok) \/ ChmodTmp(ok) \/ WriteTmp(ok) \/ FlushTmp(ok) \/ CloseTmp(ok)
-                         \/ UnlinkTmp(ok) \/ RenamePack(ok) \/ CreateLock(ok) \/ WriteLock(ok)
+                         \/ UnlinkTmp(ok) \/ TouchExisting(ok) \/ RenamePack(ok) \/ CreateLock(ok) \/ WriteLock(ok)
                          \/ FlushLock(ok) \/ CloseLock(ok) \/ ReplaceIdx(ok)
   \/ UnlinkLock \/ UnlinkPack \/ UnlinkIdx \/ Return \/ MSpool \/ MInflate
 
